@@ -51,8 +51,14 @@ for (ki, ko, tiers, cost) in ((1, 1, ("quick", "thorough"), 2), (2, 2, ("quick",
     OBLIGATIONS.append(M("C01", f"c01_wire_k{ki}x{ko}", {"q": "wire", "k_in": ki, "k_out": ko}, WIRE_FUNCS,
                          f"serialisation of a transaction with {ki} inputs x {ko} outputs vs the wire format (version, compact-size counts, outpoint, script length prefix, sequence, value, locktime) and "
                          "txid = byte-reversed SHA256D(serialisation); all scalars symbolic, every script length symbolic (<= 2^33: all four compact-size classes per script inside one query)", cost=cost, tiers=tiers))
+for (ki, ko, tiers, cost, to) in ((1, 1, ("quick", "thorough"), 2, 900), (1, 2, ("thorough",), 8, 2400), (2, 1, ("thorough",), 9, 3600)):
+    OBLIGATIONS.append(M("C01", f"c01_parse_k{ki}x{ko}", {"q": "parse", "k_in": ki, "k_out": ko}, ["Transaction::from_bytes_impl", "TxIn::read_in", "TxOut::read_in", "VarIntReader::read_varint (Cursor<Vec<u8>>)", "TxIn::is_coinbase_outpoint_impl", "HashCache::new"],
+                         f"parse direction: from_bytes_impl applied to the reference serialisation of a symbolic transaction ({ki} inputs x {ko} outputs, every scalar symbolic, every script length symbolic over all four "
+                         "compact-size classes) returns exactly that transaction (version, outpoints, script bytes, sequences, values, locktime, empty hash cache); scripts opaque (Script::from_bytes = identity constructor)",
+                         cost=cost, tiers=tiers, timeout=to,
+                         stubs=("E2 parse models: the input buffer is a list of pieces (bytes, opaque script atoms, compact-size ite pieces); Cursor reads hand back exactly those terms; misaligned reads are outside (undecided)",)))
 EXPLANATION["C01"] += (" E2 (mirsym): Transaction/TxIn/TxOut::to_bytes_impl and get_id_impl MIR vs an independent wire-format encoding, scripts opaque with symbolic length. "
-                       "Not decided here: the parse direction (from_bytes_impl/read_in) and the script codec inside a transaction.")
+                       "Parse direction: from_bytes_impl(reference serialisation) == the transaction, 1x1 quick, 1x2 / 2x1 thorough. Not decided: non-canonical/malformed inputs beyond totality (C09), the script codec inside a transaction.")
 
 # ---------------------------------------------------------------- C03
 EXPLANATION["C03"] = ("FORKID sighash preimage. E2 (mirsym): the MIR of sighash_preimage_impl -> sighash_bip143 -> hash_inputs/hash_sequence/hash_outputs and all "
